@@ -324,3 +324,50 @@ Definition run_net_case (nc : net_case) : obsv :=
                end in
   let '(os, n) := run_net_ops nc 1 {| nbooks := books; nobs := books; nlinks := links |} (nc_ops nc) in
   OL [OL os; OL (map obs_book (nbooks n))].
+
+(* ------------------------------------------------------------------ *)
+(* Concurrent use (H-ATOM): announce and update each run under the sender lock of the watch, so
+   threads calling them concurrently must behave like SOME interleaving of the atomic steps above
+   that respects each thread's program order. *)
+
+(* every way to take the next step: (the op, the remaining threads) *)
+Fixpoint picks {A} (pre : list (list A)) (ts : list (list A)) : list (A * list (list A)) :=
+  match ts with
+  | [] => []
+  | t :: rest =>
+      match t with
+      | [] => []
+      | x :: t' => [(x, rev_append pre (t' :: rest))]
+      end ++ picks (t :: pre) rest
+  end.
+
+(* books after every prefix of every interleaving *)
+Fixpoint lin_reach (fuel : nat) (chk : bool) (b : book) (ts : list (list op)) : list book :=
+  b :: match fuel with
+       | O => []
+       | S f => flat_map (fun p => lin_reach f chk (fst (step chk b (fst p))) (snd p)) (picks [] ts)
+       end.
+
+(* books after every complete interleaving *)
+Fixpoint lin_finals (fuel : nat) (chk : bool) (b : book) (ts : list (list op)) : list book :=
+  match fuel with
+  | O => [b]
+  | S f =>
+      match picks [] ts with
+      | [] => [b]
+      | ps => flat_map (fun p => lin_finals f chk (fst (step chk b (fst p))) (snd p)) ps
+      end
+  end.
+
+(* A concurrent case: overflow mode, a sequential prefix, the threads, the final books and the
+   published books observed on the implementation.  Result: for each observed final book whether
+   some linearisation ends in it, for each observed published book whether some linearisation
+   passes through it. *)
+Definition run_lin_case (c : bool * list op * list (list op) * list obsv * list obsv) : obsv :=
+  let '(chk, init, ts, fins, samples) := c in
+  let b0 := run chk [] init in
+  let fuel := length (concat ts) in
+  let fs := map obs_book (lin_finals fuel chk b0 ts) in
+  let rs := map obs_book (lin_reach fuel chk b0 ts) in
+  OL [ OL (map (fun o => ob (existsb (obsv_eqb o) fs)) fins);
+       OL (map (fun o => ob (existsb (obsv_eqb o) rs)) samples) ].
